@@ -121,7 +121,8 @@ def run_case(case, tier):
         res["failures"].append({"sig": {"kind": kind, "fmt": case["fmt"]}, "detail": detail, "case": concrete})
 
     if exc is not None:
-        lab["cli_crash_(C19)"] = 1
+        fr = vsgapi.innermost_vsg_frame(exc)
+        res["failures"].append({"sig": {"kind": "run_ends_in_traceback", "exc": type(exc).__name__, "where": "%s:%s" % (fr[0], fr[1])}, "detail": {"msg": str(exc)[:200], "bad": case.get("bad")}, "case": concrete})
         return res
     try:
         J = json.load(open(js))
@@ -230,11 +231,14 @@ def run_case(case, tier):
                 if m:
                     counts = dict((a, int(b)) for a, b in re.findall(r"\[([^\]:]+): (\d+)\]", m.group(4)))
                     seen[m.group(1)] = (m.group(2), counts, stream)
+        config_error = "referenced in configuration could not be found" in err or "Invalid configuration" in err
         for fn_ in names:
             if fn_ in rejected:
                 continue
             if fn_ not in seen:
-                fail("summary_line_missing", {"file": fn_})
+                if not config_error:
+                    # (after a configuration error VSG stops processing the remaining files by design)
+                    fail("summary_line_missing", {"file": fn_})
                 continue
             word, counts, stream = seen[fn_]
             want = "ERROR" if per_file_err.get(fn_, 0) > 0 else "OK"
